@@ -81,3 +81,6 @@ func ExecuteTemplate(tmpl *template.Template, extras map[string]string, status *
 
 // HelperFunctionMap is the function map offered to notification templates.
 func HelperFunctionMap() template.FuncMap { return notifier.VerifHelperFunctionMap() }
+
+// ModuleExtras reports, per module, the extras its templates will be given.
+func (n *Notifier) ModuleExtras() map[string]map[string]string { return n.c.VerifModuleExtras() }
